@@ -44,6 +44,8 @@ type Prog struct {
 	lockInvs       map[string][]*LockInv // "Type.lockField" -> monitor invariant clauses
 	leanProofs     []leanProof
 	boundedChecks  []boundedCheck
+	wireCache      map[string]*wirePair
+	wireProps      []string
 }
 
 type ghostFunDecl struct {
